@@ -1,9 +1,9 @@
 #!/bin/bash
-# developer aid: apply a sed mutation to a /repo file, run a unit, restore.   tools/mut.sh <repo-rel-file> <sed-expr> <unit>
+# developer aid: apply a sed mutation to a /repo file, run a unit, restore (also on interruption).   tools/mut.sh <repo-rel-file> <sed-expr> <unit> [lines]
 f=/repo/$1
-cp "$f" /var/tmp/mut.bak
+bak=$(mktemp /var/tmp/mut.XXXXXX)
+cp "$f" "$bak"
+trap 'cp "$bak" "$f"; rm -f "$bak"' EXIT INT TERM
 sed -i "$2" "$f"
-if cmp -s "$f" /var/tmp/mut.bak; then echo "MUTATION DID NOT APPLY"; fi
-(cd /verif && ./check --unit "$3" 2>&1 | grep -E "FAIL|FAILURE|ERROR|canary" | head -${4:-6})
-cp /var/tmp/mut.bak "$f"
-git -C /repo status --short | head -3
+if cmp -s "$f" "$bak"; then echo "MUTATION DID NOT APPLY"; fi
+(cd /verif && timeout 600 ./check --unit "$3" 2>&1 | grep -E "FAIL|FAILURE|ERROR|canary" | head -${4:-6})
